@@ -73,7 +73,45 @@ theorem unpack62 (v1 v2 v3 v4 : Nat) (h1 : v1 < 4611686018427387904) (h2 : v2 < 
 
 theorem leBytes_one (x : Nat) : leBytes 1 x = [x % 256] := rfl
 
-set_option maxRecDepth 20000 in
+theorem pack62_bytes (v1 v2 v3 v4 : Nat) (b1 : v1 < 4611686018427387904) (b2 : v2 < 4611686018427387904)
+    (b3 : v3 < 4611686018427387904) (b4 : v4 < 4611686018427387904) :
+    pack62 v1 v2 v3 v4 =
+        leBytes 8 (v1 + (v2 % 4) * 4611686018427387904) ++ (leBytes 8 (v2 / 4 + (v3 % 16) * 1152921504606846976) ++
+        (leBytes 8 (v3 / 16 + (v4 % 64) * 288230376151711744) ++ (leBytes 4 (v4 / 64) ++
+        (leBytes 2 (v4 / 64 / 4294967296) ++ leBytes 1 (v4 / 64 / 4294967296 / 65536))))) := by
+  obtain ⟨e1, e2, e3, e4⟩ := pack62_words v1 v2 v3 v4 b1 b2 b3 b4
+  unfold pack62
+  rw [e1, e2, e3, e4]
+  have s1 : leBytes 8 (v4 / 64) = leBytes 4 (v4 / 64) ++ (leBytes 2 (v4 / 64 / 256 ^ 4) ++
+      (leBytes 1 (v4 / 64 / 256 ^ 4 / 256 ^ 2) ++ leBytes 1 (v4 / 64 / 256 ^ 4 / 256 ^ 2 / 256 ^ 1))) := by
+    rw [show (8 : Nat) = 4 + (2 + (1 + 1)) by rfl, leBytes_split, leBytes_split, leBytes_split]
+  rw [s1]
+  simp only [← List.append_assoc]
+  rw [List.take_left' (by simp [leBytes_length])]
+
+/-- decoding the 31 bytes: the six reads of `read_from` -/
+theorem unpack62_reads (w1 w2 w3 w4 : Nat) (rest : Bytes) (h1 : w1 < 18446744073709551616)
+    (h2 : w2 < 18446744073709551616) (h3 : w3 < 18446744073709551616) (f : Nat → Nat → Nat → Nat → Nat → Nat → List Nat) :
+    (do
+      let v1 ← readUInt 8
+      let v2 ← readUInt 8
+      let v3 ← readUInt 8
+      let v4 ← readUInt 4
+      let v5 ← readUInt 2
+      let v6 ← readU8
+      (pure (f v1 v2 v3 v4 v5 v6) : Dec (List Nat)))
+      (leBytes 8 w1 ++ (leBytes 8 w2 ++ (leBytes 8 w3 ++ (leBytes 4 w4 ++
+        (leBytes 2 (w4 / 4294967296) ++ leBytes 1 (w4 / 4294967296 / 65536))))) ++ rest) =
+    .ok (f w1 w2 w3 (w4 % 4294967296) (w4 / 4294967296 % 65536) (w4 / 4294967296 / 65536 % 256), rest) := by
+  have r1 := readUInt_leBytes (n := 8) (v := w1) (by simpa using h1)
+  have r2 := readUInt_leBytes (n := 8) (v := w2) (by simpa using h2)
+  have r3 := readUInt_leBytes (n := 8) (v := w3) (by simpa using h3)
+  have r4 := readUInt_leBytes_mod 4 w4
+  have r5 := readUInt_leBytes_mod 2 (w4 / 4294967296)
+  simp only [Nat.reducePow] at r4 r5
+  simp only [List.append_assoc, bind_apply, r1, r2, r3, r4, r5, leBytes_one, List.cons_append,
+    List.nil_append, readU8_cons, pure_apply]
+
 theorem elemDigest62_RT : elemDigest62.RT := by
   intro d rest hx
   simp only [elemDigest62, Bool.and_eq_true, beq_iff_eq] at hx
@@ -88,34 +126,23 @@ theorem elemDigest62_RT : elemDigest62.RT := by
     have b2 : v2 < 4611686018427387904 := by omega
     have b3 : v3 < 4611686018427387904 := by omega
     have b4 : v4 < 4611686018427387904 := by omega
-    obtain ⟨e1, e2, e3, e4⟩ := pack62_words v1 v2 v3 v4 b1 b2 b3 b4
     obtain ⟨u1, u2, u3, u4⟩ := unpack62 v1 v2 v3 v4 b1 b2 b3 b4
-    -- the 31 bytes
-    have hbytes : pack62 v1 v2 v3 v4 =
-        leBytes 8 (v1 + (v2 % 4) * 4611686018427387904) ++ (leBytes 8 (v2 / 4 + (v3 % 16) * 1152921504606846976) ++
-        (leBytes 8 (v3 / 16 + (v4 % 64) * 288230376151711744) ++ (leBytes 4 (v4 / 64) ++
-        (leBytes 2 (v4 / 64 / 256 ^ 4) ++ leBytes 1 (v4 / 64 / 256 ^ 4 / 256 ^ 2))))) := by
-      unfold pack62
-      rw [e1, e2, e3, e4]
-      have s1 : leBytes 8 (v4 / 64) = leBytes 4 (v4 / 64) ++ (leBytes 2 (v4 / 64 / 256 ^ 4) ++
-          (leBytes 1 (v4 / 64 / 256 ^ 4 / 256 ^ 2) ++ leBytes 1 (v4 / 64 / 256 ^ 4 / 256 ^ 2 / 256 ^ 1))) := by
-        rw [show (8 : Nat) = 4 + (2 + (1 + 1)) by rfl, leBytes_split, leBytes_split, leBytes_split]
-      rw [s1]
-      simp only [← List.append_assoc]
-      rw [List.take_left' (by simp [leBytes_length])]
-    have r1 := readUInt_leBytes (n := 8) (v := v1 + (v2 % 4) * 4611686018427387904) (by simp only [Nat.reducePow]; omega)
-    have r2 := readUInt_leBytes (n := 8) (v := v2 / 4 + (v3 % 16) * 1152921504606846976) (by simp only [Nat.reducePow]; omega)
-    have r3 := readUInt_leBytes (n := 8) (v := v3 / 16 + (v4 % 64) * 288230376151711744) (by simp only [Nat.reducePow]; omega)
-    have r4 := readUInt_leBytes_mod 4 (v4 / 64)
-    have r5 := readUInt_leBytes_mod 2 (v4 / 64 / 256 ^ 4)
     have m1 : v1 % F62.impl.M = v1 := Nat.mod_eq_of_lt h1
     have m2 : v2 % F62.impl.M = v2 := Nat.mod_eq_of_lt h2
     have m3 : v3 % F62.impl.M = v3 := Nat.mod_eq_of_lt h3
     have m4 : v4 % F62.impl.M = v4 := Nat.mod_eq_of_lt h4
-    simp only [Nat.reducePow] at r4 r5 hbytes
-    simp only [elemDigest62, hbytes, List.append_assoc, bind_apply, r1, r2, r3, r4, r5, leBytes_one, List.cons_append,
-      List.nil_append, readU8_cons, pure_apply]
-    simp only [Nat.div_div_eq_div_mul, Nat.reduceMul] at u4 ⊢
-    rw [u1, u2, u3, u4, m1, m2, m3, m4]
+    have hr := unpack62_reads (v1 + (v2 % 4) * 4611686018427387904) (v2 / 4 + (v3 % 16) * 1152921504606846976)
+      (v3 / 16 + (v4 % 64) * 288230376151711744) (v4 / 64) rest (by omega) (by omega) (by omega)
+      (fun a b c d e g =>
+        [(a &&& mask62) % F62.impl.M,
+         ((((b <<< 4) % u64max) >>> 2) ||| ((a >>> 62) &&& mask62)) % F62.impl.M,
+         ((((c <<< 6) % u64max) >>> 2) ||| ((b >>> 60) &&& mask62)) % F62.impl.M,
+         ((c >>> 58) ||| (d <<< 6) ||| (e <<< 38) ||| (g <<< 54)) % F62.impl.M])
+    simp only [Nat.div_div_eq_div_mul, Nat.reduceMul] at u4 hr
+    show elemDigest62.dec (pack62 v1 v2 v3 v4 ++ rest) = _
+    rw [pack62_bytes v1 v2 v3 v4 b1 b2 b3 b4]
+    simp only [Nat.div_div_eq_div_mul, Nat.reduceMul]
+    simp only [elemDigest62]
+    rw [hr, u1, u2, u3, u4, m1, m2, m3, m4]
 
 end WinterProofs.C12L
